@@ -60,7 +60,7 @@ def run_C07(ctx):
             "self-recursive frames (all four call kinds, all forks) reaching the call depth limit, then CREATE/CREATE2/CALL refused in the deepest frames: "
             "tree accessors checked against each other, no call left open, a follow-up top-level call is a new parentless node",
             nontrivial=lambda c: c.get("steps", 0) >= 2000, oracle_prefix="C07")
-    _exec_run_late(ctx, "C07", 8, 500, 20000)
+    _exec_run_late(ctx, "C07", 8, 500, 10000)
 
 
 def run_C01(ctx):
@@ -78,7 +78,7 @@ def precomp_run(ctx, prefix):
             oracle_prefix=prefix)
 
 
-def execref_run(ctx, quick=600, thorough=30000):
+def execref_run(ctx, quick=600, thorough=15000):
     corr_run(ctx, "execref", ["execref", "--n", n_cases(ctx, quick, thorough)],
              "Model/Exec.v frame logic with the Artela additions OFF (artela = false; recorded-script instance) vs go-ethereum v1.12.0's own EVM.Call/CallCode/DelegateCall/"
              "StaticCall/Create/Create2 on generated standard programs: results, gas, complete debug event stream, world state (the reference side of the refinement theorem additions_invisible)",
@@ -89,7 +89,7 @@ def run_C02(ctx):
     ref_run(ctx, "diffref", ["diffref", "--mode", "gas", "--n", n_cases(ctx, 800, 8000)],
             "per-step gas/cost stream, frame gas hand-over, refund and leftover gas vs go-ethereum v1.12.0, re-run at gas limits one below / on / one above intermediate gas values",
             nontrivial=lambda c: c.get("steps", 0) >= 3)
-    execref_run(ctx, 400, 20000)
+    execref_run(ctx, 400, 10000)
     precomp_run(ctx, "C02")
 
 
@@ -97,7 +97,7 @@ def _exec_run_late(ctx, prefix, mask, quick, thorough):
     exec_run(ctx, prefix, mask, quick=quick, thorough=thorough)
 
 
-def exec_run(ctx, prefix, mask, quick=1200, thorough=60000):
+def exec_run(ctx, prefix, mask, quick=1200, thorough=25000):
     corr_run(ctx, "exec", ["exec", "--n", n_cases(ctx, quick, thorough)],
              "Model/Exec.v frame logic (recorded-script instance) vs EVM.Call/CallCode/DelegateCall/StaticCall/Create/Create2 with fake Aspects: "
              "results, interleaved event stream, call tree, journals, world state",
@@ -128,7 +128,7 @@ def run_C03(ctx):
     ref_run(ctx, "fuzzcrash", ["fuzzcrash", "--n", n_cases(ctx, 2500, 150000)],
             "every entry point on random bytes / malformed programs / hostile journal operands / generated programs incl. calls to 0x64-0x66, all 13 forks, inside a panic boundary; "
             "follow-up call must be announced at depth 0, no call left open", oracle_prefix="C03")
-    exec_run(ctx, "C03", 0, quick=400, thorough=20000)
+    exec_run(ctx, "C03", 0, quick=400, thorough=10000)
     corr_run(ctx, "abi", ["abi", "--n", n_cases(ctx, 1000, 50000)], "Artela precompiles under all call kinds (a panic shows as a difference from the model, which never panics)",
              nontrivial=lambda c: len(c["input"]) > 0)
     # known finding F7: the reference journal's work is unbounded; beyond ~2^27 bytes it does not return in reasonable time / memory
@@ -178,7 +178,7 @@ def run_C15(ctx):
 
 
 def run_C16(ctx):
-    ref_run(ctx, "determinism", ["determinism", "--n", n_cases(ctx, 300, 6000)],
+    ref_run(ctx, "determinism", ["determinism", "--n", n_cases(ctx, 300, 3000)],
             "one tracer history / one transaction replayed 20 (thorough 200) resp. 4 times in fresh instances interleaved with unrelated executions; every result and every query answer serialised in returned order must be identical; a fresh instance sees nothing",
             oracle_prefix="C16")
     corr_run(ctx, "tracerhist", ["tracerhist", "--n", n_cases(ctx, 1000, 50000)],
@@ -193,8 +193,8 @@ def run_C18(ctx):
     ref_run(ctx, "tracerpair", ["tracerpair", "--n", n_cases(ctx, 1200, 60000)],
             "paired tracers on both implementations: struct logger (6 configs), access-list, prestate (+diff mode), 4byte, call (only-top-call, with-log), flat call (parity errors, include precompiles), mux, noop; GetResult compared",
             nontrivial=lambda c: c.get("output_bytes", 0) > 2, oracle_prefix="C18")
-    exec_run(ctx, "C18", 2, quick=500, thorough=30000)
-    execref_run(ctx, 400, 20000)
+    exec_run(ctx, "C18", 2, quick=500, thorough=15000)
+    execref_run(ctx, 400, 10000)
 
 
 def run_C19(ctx):
@@ -418,8 +418,9 @@ PROPS.update({
         "level_text": "Theorems in Coq: the value journal reads one slot and copies at most 32 bytes; memory strings copied by the key journals lie within the frame's memory; the context-write precompile returns sub-slices of its calldata; "
                       "the reference journal performs 1 + ceil(len/32) reads with len taken from a contract-controlled storage word — the bound by a fixed multiple of the flat 800 gas is REFUTED (theorem with witness, known finding F7) and the weaker bound by the encoded length is proved. "
                       "A sweep with a counting StateDB and allocation accounting runs each journal instruction and the context-write precompile with length fields 2^5..2^16 (2^22 thorough).",
-        "level_note": COMMON_NOTE + "For the inherited opcodes the statement is inherited from go-ethereum v1.12.0 (C01 identity theorems) and not re-proved. Allocation is measured with runtime.MemStats (TotalAlloc delta).",
+        "level_note": COMMON_NOTE + "For the inherited opcodes the statement is inherited from go-ethereum v1.12.0 (the identity theorem over regenerated digests is part of C20's theorems) and additionally swept (sizes 2^k against allocation per gas), not re-proved. Allocation is measured with runtime.MemStats (TotalAlloc delta).",
         "rule": "6 instruction/precompile shapes x k = 5..16 (22): a length field of 2^k placed where it could drive reads, copies or allocations; plus 4 journal instructions with a pointer operand 2^10..2^24 beyond the frame's memory; bound checked: reads <= gas/100 + 2, allocated bytes <= 128 KiB + 16 x memory size; "
+                "plus 16 inherited copy/hash/log/call/create/return shapes x size 2^12..2^26 (thorough 2^10..2^63) x {Berlin, Cancun}: allocated bytes of the whole transaction <= 256 KiB + 8 x gas used; "
                 "non-trivial = any case; distinct = (shape, k)",
         "modelled": ["vm/instructions.go:926-1140", "vm/contracts.go:1161-1193", "vm/gas_table.go makeGasJournal"],
         "assumptions": [],
@@ -483,7 +484,7 @@ PROPS.update({
                       "and by replaying the same history/transaction in fresh instances (20-200 times, interleaved with unrelated executions) and comparing complete serialisations; every transaction is additionally executed as the first execution of a fresh child process "
                       "(vh determinism-one) and must give the same serialisation as in the warm process that has already run unrelated executions, including calls with a context to the Artela precompiles.",
         "level_note": COMMON_NOTE + "Not modelled: Go map iteration order, allocator, shared package-level uint256 constants (their in-place mutation, or a context kept in a shared precompile instance, shows as a difference between the fresh-process run and the warm-process replays).",
-        "rule": "2/3 tracer histories (10..60 operations, several children per parent) replayed R times, 1/3 whole transactions (exec scenarios with journal instructions and Aspects) replayed 4 times in-process plus once in a fresh process; non-trivial = any; distinct = (kind, seed)",
+        "rule": "1/2 tracer histories (10..60 operations, several children per parent) replayed R times, 1/6 single-frame journal programs and 1/3 whole transactions (exec scenarios with journal instructions and Aspects) replayed 4 times in-process plus once in a fresh process; non-trivial = any; distinct = (kind, seed)",
         "modelled": ["vm/tracer.go query functions"],
         "assumptions": [],
     },
